@@ -277,6 +277,12 @@ func (fr *Frame) checkExit(st *State, fc *FuncContract, entryLocks map[string]st
 	}
 	sort.Strings(heldNow)
 	e.oblige(fr, st, "lock-balance", "", nret, BoolLit(bal), nil, nil, fmt.Sprintf("locks held at return %v differ from entry", heldNow))
+	// `sets g := expr`: ghost assignment performed at every return (the ghost variable must be in `modifies`
+	// unless the contract is `noframe`); callers see it through the ensures clauses that mention g
+	for _, c := range fc.Sets {
+		v := fr.evalSpecPkg(st, c.Expr, b, fr.entry, "")
+		st.heap["ghost:"+c.Name] = v.T
+	}
 	for i, c := range fc.Ensures {
 		var g *Term
 		func() {
